@@ -208,6 +208,22 @@ def fits_array2d_file_roundtrip(values, mask, flip, pixel_scale, origin, as_path
                 return "PIXSCALE card %r != pixel scale %r" % (back.header.header_sci_obj["PIXSCALE"], pixel_scale)
             if not _scales_equal(back.pixel_scales, (pixel_scale, pixel_scale)) or tuple(back.origin) != tuple(origin):
                 return "pixel_scales/origin of the loaded array differ from those passed"
+            if not derived:
+                # second generation: the file is loaded as an array of ANOTHER pixel scale (re-binned / re-calibrated data) and written
+                # again -- what is written is the array that is written, its header card is that array's pixel scale, not the old file's
+                s2 = pixel_scale * 2.0
+                again = aa.Array2D.from_fits(file_path=fp, pixel_scales=s2, origin=origin, hdu=0)
+                fp2 = env.path("gen2_%d" % store_native, "arr.fits", as_path=as_path)
+                again.output_to_fits(file_path=fp2)
+                back2 = aa.Array2D.from_fits(file_path=fp2, pixel_scales=s2, origin=origin, hdu=0)
+                if not _same(back2.native, want):
+                    return "second write / read generation changes the values"
+                if not _scales_equal([back2.header.header_sci_obj["PIXSCALE"]], (s2,)):
+                    return ("file written at pixel scale %r, loaded as an array of pixel scale %r and written again: PIXSCALE card is %r"
+                            % (pixel_scale, s2, back2.header.header_sci_obj["PIXSCALE"]))
+                hb2 = aa.Array2D.from_primary_hdu(primary_hdu=again.hdu_for_output, origin=origin)
+                if not _scales_equal(hb2.pixel_scales, (s2, s2)):
+                    return "hdu_for_output of an array loaded at pixel scale %r carries pixel scales %r" % (s2, hb2.pixel_scales)
     return None
 
 
